@@ -1,0 +1,8 @@
+//go:build verif
+
+package conway
+
+// LookupIn exposes lookupInternal (lookup in a caller-supplied database text).
+func LookupIn(char, extDeg uint, text string) ([]uint, error) {
+	return lookupInternal(char, extDeg, text)
+}
